@@ -230,6 +230,44 @@ def _strip(t):
     return t
 
 
+PIECE_PARAMS = set()
+
+
+def piece_params(ctx, name):
+    """parameters of `name` of type Piece that every caller fills with the piece standing on the origin square of the move it also passes
+    (board.get(m.from_square()).unwrap().0): inside the function such a parameter IS the mover's piece kind"""
+    facts = ctx.facts
+    fn_ = facts.need_fn(name)
+    cands = [i_ for i_ in range(1, fn_.arg_count + 1) if fn_.local_ty(i_) == PIECE_ADT]
+    good = set()
+    if not cands:
+        return good
+    sites = facts.call_sites(name, crate='chess', kinds=('lib', 'bin'))
+    callers = {(f.closure_of or f.name) for f, _ in sites}
+    for i_ in cands:
+        ok = bool(callers)
+        for c_ in callers:
+            outs = Engine(facts, opaque={name}, readonly={CHESSMOVE + '::from_square', CHESSMOVE + '::to_square', BOARD + '::get'}).run(c_)
+            n_ = 0
+            for o in outs:
+                for e in o.events:
+                    if e[0] == 'call' and e[1] == name:
+                        n_ += 1
+                        a = e[2]
+                        pv = _strip(a[i_ - 1])
+                        mv = _strip(a[0])
+                        good_ = pv[0] == 'fld' and pv[2] == '0' and pv[1][0] == 'fld' and pv[1][2] == 'Some.0' and _strip(pv[1][1])[0] == 'call' \
+                            and _strip(pv[1][1])[1] == BOARD + '::get'
+                        if good_:
+                            sq_ = _strip(_strip(pv[1][1])[2][1])
+                            good_ = sq_[0] == 'call' and sq_[1] == CHESSMOVE + '::from_square' and _strip(sq_[2][0]) == mv
+                        ok = ok and good_
+            ok = ok and n_ > 0
+        if ok:
+            good.add(i_)
+    return good
+
+
 def _side(t):
     """classify one side of an equality in the ambiguity filter: (who, what) with who in {elem, move} and what in {from, to, piece}"""
     t0 = t
@@ -237,6 +275,9 @@ def _side(t):
     if t[0] == 'call' and t[1] in (CHESSMOVE + '::from_square', CHESSMOVE + '::to_square'):
         who = {('p', 2): 'elem', ('p', 1): 'move'}.get(_strip(t[2][0]))
         return (who, 'from' if t[1].endswith('from_square') else 'to') if who else None
+    # the mover's piece handed in by the caller (checked at the call sites by piece_param_ok)
+    if t[0] == 'p' and t[1] in PIECE_PARAMS:
+        return ('move', 'piece')
     # piece on the origin square: board.get(x.from_square()).Some.0.0
     if t[0] == 'fld' and t[2] == '0' and t[1][0] == 'fld' and t[1][2] == 'Some.0':
         g = _strip(t[1][1])
@@ -332,11 +373,19 @@ def r2_filter(ctx):
     facts = ctx.facts
     name = AN + 'get_ambiguous_moves'
     ro = {CHESSMOVE + '::from_square', CHESSMOVE + '::to_square', BOARD + '::get'}
+    PIECE_PARAMS.clear()
+    PIECE_PARAMS.update(piece_params(ctx, name))
     outs = Engine(facts, readonly=ro).run(name)
     ctx.touch(name)
     rets = [o for o in outs if o.kind == 'return']
     bad = []
     tables = []
+    fn_ = facts.need_fn(name)
+    list_params = {('p', i_) for i_ in range(1, fn_.arg_count + 1) if 'SmallVec' in fn_.local_ty(i_) or 'ChessMoveList' in fn_.local_ty(i_) or '[chess::chess_move' in fn_.local_ty(i_)}
+
+    def over_list_param(t_):
+        # the whole candidate list handed in by the caller (the rivals are searched among ALL legal moves)
+        return any(s_ in list_params for s_ in subterms(t_))
     for o in rets:
         extra = [show_cond(c) for c in o.conds if not (c[0][0] == 'discr' and 'get@' in show(c[0]))]
         clo = [e for e in o.events if e[0] == 'closure' and e[1].startswith(name)]
@@ -345,11 +394,11 @@ def r2_filter(ctx):
             snaps = clo[0][2]
             scans = [e for e in o.events if e[0] == 'call' and e[1].endswith('::for_each')]
             filt = [e for e in o.events if e[0] == 'call' and e[1].endswith('Iterator::filter')]
-            if scans and 'arg2' in show(scans[0][2][0]) and scans[0][2][1][0] == 'agg' and scans[0][2][1][2] == clo[0][1]:
+            if scans and over_list_param(scans[0][2][0]) and scans[0][2][1][0] == 'agg' and scans[0][2][1][2] == clo[0][1]:
                 # the list returned is the list the body pushes onto
                 lists = [sn for sn in snaps if sn == o.value]
                 form = 'for_each' if lists else None
-            elif filt and 'arg2' in show(filt[0][2][0]) and filt[0][2][1][0] == 'agg' and filt[0][2][1][2] == clo[0][1]:
+            elif filt and over_list_param(filt[0][2][0]) and filt[0][2][1][0] == 'agg' and filt[0][2][1][2] == clo[0][1]:
                 # returned = collect(cloned(filter(candidates.iter(), body)))
                 v = o.value
                 chain = []
@@ -528,7 +577,7 @@ def r4_source(ctx):
         n += 1
         has_gen = lambda t: any(s_[0] == 'call' and s_[1] == gen for s_ in subterms(t))
         src = iteration_sources(o)
-        ok = ok and len(g) == 1 and g[0][2][1] == ('ref', ('der', ('p', 1))) and g[0][2][2] == ('p', 2) and any(has_gen(x[1]) and not x[2] for x in src)
+        ok = ok and len(g) == 1 and g[0][2][1] == ('ref', ('der', ('p', 1))) and g[0][2][2] == ('p', 2) and any(has_gen(x[1]) and set(x[2]) <= {'map', 'cloned', 'copied', 'enumerate'} for x in src)
         a = ls[0][2]
         okc = okc and len(ls) == 1 and is_iteration_element(a[0]) and has_gen(a[2]) and strip_refs_t(a[1]) == ('p', 1)
         push = [e for e in o.events if e[0] == 'call' and e[1].endswith('::push')]
